@@ -740,7 +740,7 @@ impl Check for C13 {
          8-80 ops, 4-15 handles built by inverting the Fibonacci slot function so that they collide / wrap around) on a table \
          created with a seeded initial capacity (0..40, powers of two up to 1024); it is executed fault-free on a counting stub \
          allocator, then once for EVERY allocation index inside a fallible operation with that allocation failing, then on \
-         SysAllocator and on the AllocProxy of a live VM. distinct_nontrivial counts distinct (capacity,count) table states \
+         SysAllocator and on the AllocProxy of a live VM, and fault-free with a value type without drop glue. distinct_nontrivial counts distinct (capacity,count) table states \
          reached plus distinct (history, fail index) pairs whose injected failure fired plus histories with growth or a \
          removal of a present handle."
             .to_string()
